@@ -49,7 +49,9 @@ fn write_subword_fn<W: Write>(
     local nliterals=${{#literals[@]}}
     while true; do
         if [[ $char_index -ge ${{#word}} ]]; then
-            matched=1
+            if [[ $mode != matches || -v "accepting_states[$subword_state]" ]]; then
+                matched=1
+            fi
             break
         fi
 
@@ -300,13 +302,21 @@ fn write_completion_tables<W: Write>(
     Ok(())
 }
 
+fn write_accepting_states<W: Write>(buffer: &mut W, accepting: &[u32]) -> Result<()> {
+    let initializer = accepting.iter().map(|s| format!("[{s}]=1")).join(" ");
+    writeln!(buffer, r#"    local -A accepting_states=({initializer})"#)?;
+    Ok(())
+}
+
 fn write_subword_wrapper_fn<W: Write>(
     buffer: &mut W,
     command: &str,
     id: usize,
     lookups: &LookupTables,
+    accepting: &[u32],
 ) -> Result<()> {
     writeln!(buffer, r#"_{command}_subword_{id} () {{"#)?;
+    write_accepting_states(buffer, accepting)?;
 
     write_literals(
         buffer,
@@ -358,8 +368,10 @@ fn write_subword_shape_wrapper_fn<W: Write>(
     id: usize,
     shape_id: usize,
     lookups: &LookupTables,
+    accepting: &[u32],
 ) -> Result<()> {
     writeln!(buffer, r#"_{command}_subword_{id} () {{"#)?;
+    write_accepting_states(buffer, accepting)?;
     write_literals(
         buffer,
         &lookups
@@ -415,10 +427,19 @@ fi
 
     let id_from_dfa = dfa.get_subwords(ARRAY_START as usize);
     if needs_subwords_code {
+        let mut accepting_from_id: HashMap<usize, Vec<u32>> = Default::default();
         let tables_from_id = {
             let mut lookup_tables: HashMap<usize, LookupTables> = Default::default();
             for (dfaid, id) in &id_from_dfa {
                 let subdfa = dfa.subdfas.lookup(*dfaid);
+                accepting_from_id.insert(
+                    *id,
+                    subdfa
+                        .accepting_states
+                        .iter()
+                        .map(|s| s + ARRAY_START)
+                        .collect(),
+                );
                 let tables = get_lookup_tables(
                     subdfa,
                     &id_from_cmd,
@@ -458,13 +479,26 @@ fi
                 writeln!(buffer)?;
                 for (id, _) in chunk {
                     let tables = tables_from_id.get(id).unwrap();
-                    write_subword_shape_wrapper_fn(buffer, command, *id, shape_id, tables)?;
+                    write_subword_shape_wrapper_fn(
+                        buffer,
+                        command,
+                        *id,
+                        shape_id,
+                        tables,
+                        accepting_from_id.get(id).unwrap(),
+                    )?;
                     writeln!(buffer)?;
                 }
             } else {
                 let [(id, _)] = chunk else { unreachable!() };
                 let tables = tables_from_id.get(id).unwrap();
-                write_subword_wrapper_fn(buffer, command, *id, tables)?;
+                write_subword_wrapper_fn(
+                    buffer,
+                    command,
+                    *id,
+                    tables,
+                    accepting_from_id.get(id).unwrap(),
+                )?;
                 writeln!(buffer)?;
             }
         }
